@@ -1,6 +1,8 @@
 """Python stage for C11: replays the quick-tier case sets through Python's base64 / codecs / urllib.
 E lines bind base64_encode's output, D lines bind the harness's strict reference decoder,
-R lines bind rot13, U lines bind escape_url and the percent-decoder."""
+R lines bind rot13, U lines bind escape_url and the percent-decoder, C lines bind escape_controls and the C-style
+unescaper (codecs.escape_decode: Python's bytes-literal escape decoder).  The mode field of E/D lines is 1 for the
+URL-safe alphabet (however it was passed), 0 for the standard one."""
 import base64, binascii, codecs, glob, os, urllib.parse
 
 _URL2STD = bytes.maketrans(b"-_", b"+/")
@@ -73,5 +75,16 @@ def run(outdir, tier, repo):
                     bad("escape_url:python-unquote-differs", "escape_url(%r, %d) = %r, urllib unquotes it to %r" % (s, slash, got, urllib.parse.unquote_to_bytes(got)))
                 elif want != got:
                     bad("escape_url:differs-from-python-quote", "escape_url(%r, %d) = %r, urllib.parse.quote gives %r" % (s, slash, got, want))
+            elif p[0] == "C" and len(p) == 4:
+                ascii_mode, s, got = int(p[1]), unhex(p[2]), unhex(p[3])
+                validated += 1
+                try:
+                    py = codecs.escape_decode(got)[0]
+                except ValueError as e:
+                    py = repr(e).encode()
+                if py != s:
+                    bad("escape_controls:python-escape-decode-differs", "escape_controls(%r, %d) = %r, Python's escape decoder turns it into %r" % (s, ascii_mode, got, py))
+                elif ascii_mode and any(c < 0x20 or c > 0x7E for c in got):
+                    bad("escape_controls:non-ascii-output-in-ascii-mode", "escape_controls(%r, true) = %r" % (s, got))
     return dict(validated=validated, violations=list(viols.values()),
                 notes=["python stage: %d quick-set cases replayed through base64 / codecs / urllib" % validated])
